@@ -25,6 +25,9 @@ def main():
     seed, tier = rec.get('seed', seed), rec.get('tier', tier)
   if a.worker:
     # compat must precede any flax import; assert we test the working tree
+    deps = os.path.join(os.path.dirname(os.path.dirname(os.path.abspath(__file__))), '.deps')
+    if os.path.isdir(deps) and deps not in sys.path:
+      sys.path.append(deps)  # appended: must never shadow the packages jax/flax were installed with
     from vf import compat
     compat.install()
     import flax
